@@ -55,30 +55,33 @@ type Sample struct {
 
 // ShardResult is what one worker process reports.
 type ShardResult struct {
-	Property     string           `json:"property"`
-	Shard        int              `json:"shard"`
-	Cases        int              `json:"cases"`
-	SubEvals     int64            `json:"sub_evaluations"`
-	Steps        int64            `json:"sched_steps"`
-	Preemptions  int64            `json:"preemptions"`
-	SimNanos     int64            `json:"sim_nanos"`
-	WallS        float64          `json:"wall_s"`
-	Faults       map[string]int64 `json:"faults"`
-	Probes       map[string]int64 `json:"probes"`
-	Classes      map[string]int64 `json:"classes"`
-	Outcomes     map[string]int64 `json:"outcomes"`
-	Identities   []uint64         `json:"identities"`
-	IdentCapped  bool             `json:"identities_capped"`
-	Samples      []Sample         `json:"samples"`
-	Violations   []Replay         `json:"violations"`
-	ViolCount    map[string]int64 `json:"violation_counts"`
-	Adhoc        int              `json:"adhoc_tasks"`
-	Errors       []string         `json:"errors"`
-	Exhaustive   bool             `json:"exhaustive"`
-	ReplayResult *Violation       `json:"replay_result,omitempty"`
-	Minimised    *Replay          `json:"minimised,omitempty"`
-	MinExecs     int              `json:"min_execs,omitempty"`
-	HashLines    []string         `json:"hash_lines,omitempty"`
+	Property    string           `json:"property"`
+	Shard       int              `json:"shard"`
+	Cases       int              `json:"cases"`
+	SubEvals    int64            `json:"sub_evaluations"`
+	Steps       int64            `json:"sched_steps"`
+	Preemptions int64            `json:"preemptions"`
+	SimNanos    int64            `json:"sim_nanos"`
+	WallS       float64          `json:"wall_s"`
+	Faults      map[string]int64 `json:"faults"`
+	Probes      map[string]int64 `json:"probes"`
+	Classes     map[string]int64 `json:"classes"`
+	Outcomes    map[string]int64 `json:"outcomes"`
+	Identities  []uint64         `json:"identities"`
+	IdentCapped bool             `json:"identities_capped"`
+	Samples     []Sample         `json:"samples"`
+	Violations  []Replay         `json:"violations"`
+	ViolCount   map[string]int64 `json:"violation_counts"`
+	Adhoc       int              `json:"adhoc_tasks"`
+	Errors      []string         `json:"errors"`
+	Exhaustive  bool             `json:"exhaustive"`
+	// Recycle: the worker stopped before its last case because descriptors or goroutines left behind by simulated
+	// process deaths piled up in it; the driver continues the job in a fresh process from case FirstCase+Cases
+	Recycle      bool       `json:"recycle"`
+	ReplayResult *Violation `json:"replay_result,omitempty"`
+	Minimised    *Replay    `json:"minimised,omitempty"`
+	MinExecs     int        `json:"min_execs,omitempty"`
+	HashLines    []string   `json:"hash_lines,omitempty"`
 }
 
 func (v *Violation) FP() string { return v.Kind + "|" + v.Site }
